@@ -162,8 +162,6 @@ def threeway(ctx, res, want_tokens, gid_filter=None, want_stack=False):
         if gid_filter and not gid_filter(c[0]):
             continue
         if c[2] == "check_partial":
-            if want_tokens and not want_stack:
-                continue
             mo = dict(mo)
             if (c[0], c[1], c[6]) in spec_of:
                 mo["spec"] = spec_of[(c[0], c[1], c[6])]
@@ -200,7 +198,8 @@ def threeway(ctx, res, want_tokens, gid_filter=None, want_stack=False):
                           impl={"v": io.get("v"), "end": io.get("end")}, expected={"v": exp_v, "end": exp_end, "authority": "Spec (Lean), pest=" + str(pest)[:80]}, fws=fws)
         elif want_stack and exp_v == "ok" and io.get("stk") != sp[2]:
             ctx.violation("final stack differs from backtracking PEG semantics", c, impl=io.get("stk"), expected=sp[2])
-        elif want_tokens and exp_v == "ok" and pest and pest.startswith("ok:"):
+        elif want_tokens and c[2] == "parse_partial" and exp_v == "ok" and pest and pest.startswith("ok:") and pest.split(":")[1] == exp_end:
+            # (where pest itself departs from backtracking PEG semantics on a stack-using grammar its tree is not a reference)
             atomic = {n for n, k in ginfo["rules"] if k in ("atomic", "compound")}
             ptoks = prune(parse_tokens(pest.split(":", 2)[2]), atomic)
             itoks = parse_tokens(io.get("tok", "[]"))
@@ -221,6 +220,8 @@ def check_C01(ctx):
     ctx.rule_text = RUN_RULE
     res = suites.suite_run(ctx.tier, ctx.seed)
     ctx.tie("T-run:verdict-offset", res, ["v", "end"], lambda c: c[2] == "parse_partial")
+    from .tgen import tie_tgen
+    tie_tgen(ctx, ctx.tier, ctx.seed)      # structural tie: emitted rule! calls vs Model.Gen
     threeway(ctx, res, want_tokens=False)
 
 
@@ -235,7 +236,9 @@ def check_C07(ctx):
     ctx.rule_text = RUN_RULE + "; restricted to grammars that define WHITESPACE/COMMENT or belong to the kind-nesting family"
     res = suites.suite_run(ctx.tier, ctx.seed)
     skipg = {gid for gid, gi in res.grammars.items() if re.search(r"WHITESPACE|COMMENT", gi["text"]) or gid.startswith("s_kinds")}
-    ctx.tie("T-run:offsets-tokens", res, ["v", "end", "tok"], lambda c: c[0] in skipg and c[2] in ("parse_partial", "parse"))
+    ctx.tie("T-run:offsets-tokens", res, ["v", "end", "tok"], lambda c: c[0] in skipg and c[2] in ("parse_partial", "parse", "check_partial"))
+    from .tgen import tie_tgen
+    tie_tgen(ctx, ctx.tier, ctx.seed)      # every SKIP / INHERITED argument the generator emits vs Model.Gen
     threeway(ctx, res, want_tokens=True, gid_filter=lambda g: g in skipg)
 
 
@@ -378,6 +381,9 @@ def check_C04(ctx):
             exp = p == n
         got = fio.get("v") == "ok"
         hist["full_ok" if got else "full_fail"] += 1
+        if "check" in ent and (ent["check"][1].get("v") == "ok") != exp:
+            ctx.violation("try_check verdict differs from prefix + trailing skip + end test", ent["check"][0],
+                          impl=ent["check"][1].get("v"), expected="ok" if exp else "fail", partial={k: pio.get(k) for k in ("v", "end")})
         if got != exp:
             ctx.violation("try_parse verdict differs from prefix + trailing skip + end test", c,
                           impl=fio.get("v"), expected="ok" if exp else "fail", partial={k: pio.get(k) for k in ("v", "end")})
@@ -506,15 +512,63 @@ def check_C09(ctx):
     ctx.assumptions.append("memory safety of get_unchecked itself cannot be exhibited by the model: proved is the arithmetic precondition (in range, on a boundary) that makes the unchecked slicing sound")
 
 
+def _unhex_obs(h):
+    return "" if h == "-" else bytes.fromhex(h).decode("utf-8")
+
+
+def line_col_independent(text, pos):
+    """Line, column and the text of the line up to the offset, recomputed from the definition: lines end
+    at LF (so CRLF is one break and a lone CR is a column), columns count characters, both from 1."""
+    pre = text.encode("utf-8")[:pos].decode("utf-8")
+    start = pre.rfind("\n") + 1
+    return 1 + pre.count("\n"), 1 + len(pre) - start, pre[start:]
+
+
+def check_C10_report(ctx, c, io, pos, hist):
+    """Oracle on the rendered report of one rejected case (implementation only)."""
+    msg, lc, disp = io.get("msg"), io.get("lc"), io.get("disp")
+    if msg is None or lc is None or disp is None:
+        ctx.tie_broken("harness", {"error": "failing case without msg/lc/disp observables", "case": case_dict(c)})
+        return
+    hist["rendered"] += 1
+    if "panic" in (msg, lc, disp):
+        ctx.violation("rendering the error report panics", c, msg=msg, lc=lc, disp=disp, position=pos)
+        return
+    if "nondet" in (msg, lc, disp):
+        ctx.violation("the same case did not fail when repeated", c, position=pos)
+        return
+    line, col, upto = line_col_independent(c[6], pos)
+    if lc != f"{line}:{col}":
+        ctx.violation("line/column of the error differ from the location of the report", c, position=pos, lc=lc, expected=f"{line}:{col}")
+    text = _unhex_obs(msg)
+    if text.split("\n", 1)[0] != upto + "^---":
+        ctx.violation("first line of the message is not the line text up to the column followed by ^---", c, position=pos,
+                      first_line=text.split("\n", 1)[0], expected=upto + "^---")
+    if line > 1:
+        hist["rendered_after_line_1"] += 1
+    if any(ord(ch) > 127 for ch in upto):
+        hist["rendered_multibyte_prefix"] += 1
+    if "\r" in upto:
+        hist["rendered_cr_in_prefix"] += 1
+    if "Unexpected" in text and ", expected" in text:
+        hist["rendered_both_lists"] += 1
+    if "out of bound" in text or "Nothing to pop" in text:
+        hist["rendered_special"] += 1
+
+
 def check_C10(ctx):
-    ctx.rule_text = RUN_RULE + "; every rejected case: location in range / on a boundary / not before the end of the matched prefix; same report when the case is repeated (each case appears under parse and check and in several batches); for grammars without stack operations and without implicit skipping every rule listed as expected (unexpected) is re-run at the reported offset through its own rule struct and must fail (match)"
+    ctx.rule_text = RUN_RULE + "; every rejected case: location in range / on a boundary / not before the end of the matched prefix; same report when the case is repeated (each case appears under parse and check and in several batches); for grammars without stack operations and without implicit skipping every rule listed as expected (unexpected) is re-run at the reported offset through its own rule struct and must fail (match); the report is rendered (Tracker::collect, Display of the error): no panic, line:column = the location recomputed from the input text, first line of the message = text of the line up to the column + ^---"
     res = suites.suite_run(ctx.tier, ctx.seed)
     ctx.tie("T-run:tracker", res, ["v", "trk"])
     at = {}
+    failing = set()
     for c, io, mo in res.rows():
         if c[2] == "parse_partial" and c[3] in ("pos", "str"):
             at[(c[0], c[1], c[6], c[4] if c[3] == "pos" else 0)] = io.get("v")
-    hist = {"rejected": 0, "expected_checked": 0, "unexpected_checked": 0}
+        if io.get("v") == "fail" or mo.get("v") == "fail":
+            failing.add(c)
+    ctx.tie("T-run:message", res, ["msg", "lc"], lambda c: c in failing)
+    hist = {"rejected": 0, "expected_checked": 0, "unexpected_checked": 0, "rendered": 0, "rendered_after_line_1": 0, "rendered_multibyte_prefix": 0, "rendered_cr_in_prefix": 0, "rendered_both_lists": 0, "rendered_special": 0}
     for key, ent in group_by_input(res).items():
         for en in ("parse", "parse_partial", "check", "check_partial"):
             if en not in ent:
@@ -532,6 +586,7 @@ def check_C10(ctx):
             if pos < lo or pos > hi or not on_boundary(b, pos):
                 ctx.violation("error location out of range or off a character boundary", c, position=pos)
                 continue
+            check_C10_report(ctx, c, io, pos, hist)
             if en == "parse" and "parse_partial" in ent and ent["parse_partial"][1].get("v") == "ok":
                 pend = int(ent["parse_partial"][1]["end"])
                 if pos < pend:
@@ -557,7 +612,7 @@ def check_C10(ctx):
                             if v == "fail":
                                 ctx.violation("rule listed as unexpected fails at the reported location", c, rule=r, position=pos)
     ctx.coverage.setdefault("distribution", {}).update(hist)
-    ctx.assumptions.append("rendering of the message (line/column arithmetic) is covered by C12-C14's model; here the location and the attempt lists are checked")
+    ctx.assumptions.append("the rendered message and line:column are tied to Model/Message.lean (T-run:message); pest's own Display of the error (external code) is only run under catch_unwind")
 
 
 def pre_C06(ctx):
